@@ -461,4 +461,3 @@ func Maurer(e []bool) (float64, float64) {
 	sigma := c * math.Sqrt(3.125/float64(K))
 	return TwoSided((fn - 6.1962507) / sigma)
 }
-
